@@ -32,7 +32,7 @@ func runMoreSuites(suite string, r *rand.Rand, res *Result, thorough bool) bool 
 	case "crash":
 		s := Suite{Name: "crash", DriverSuite: "disk", Exec: crashExec}
 		res.Rule = "workloads of 14-29 multi-key transactions (Set/Delete, 1-4 keys) with thresholds that force rotations, flushes and multi-level compactions, Close/Open in between (one workload in three keeps more than ten tables in level 0 across restarts, one in three closes with flushes pending); every file-system operation (create, write, sync, rename, remove of wal, temporary and table files, from every goroutine) is serialised by the hooks and (1) replayed as an event through the Lean acceptance check Disk.accept and through the program model Prog.act (the trace must be a trace of the modelled engine, compaction plans and Open's directory listing included), (2) preceded by a crash image of the directory which is opened by the real Open and compared with the model's recovery of the same prefix and with the acknowledged state (in-flight transaction all or nothing); images with unsynced tails cut at several lengths; the recovery of every third image continues the trace after the crash (rule book and program model); crash again inside the recovery of an image, also with the recovery's own unsynced writes lost; a commit after recovery on a sample; non-trivial = every case"
-		runCases(s, crashGen(r, scale(3, 30), thorough), res)
+		runCases(s, crashGen(r, scale(4, 32), thorough), res)
 	case "txnconc":
 		s := Suite{Name: "txnconc", DriverSuite: "hist", Exec: txnconcExec}
 		res.Rule = "4-16 free-running goroutines on 2-4 shared keys (bank transfers, counters, write-skew pairs, long readers) with rotation and flush forced by small memtables and every flush-queue length; the recorded history (begin/end order, read timestamps, store reads, writes, commit timestamps from the hook) is checked by the Lean history checker: commit order explains every read, real-time order respected; transfer totals conserved; non-trivial = every case (distinct seeds/workloads)"
